@@ -271,29 +271,39 @@ def r3_grid(ctx: Context) -> None:
         cur = getattr(cur, "_parent", None)
     B = ["parameters_bounds", "self._parameters_bounds"]
     P = ["parameters_precision", "self._parameters_precision"]
-    lo_forms: set[str] = set()
-    hi_forms: set[str] = set()
-    st_forms: set[str] = set()
+    from ..poly import single_assignment_env
+    from ..util import IDX, loop_binding, _substitute
+    outer_env = {k: v_ for k, v_ in single_assignment_env(init.node).items() if not any(isinstance(x, ast.Call) for x in ast.walk(v_))}
+
+    def expand(e: ast.expr, env: dict[str, ast.expr], depth: int = 0) -> ast.expr:
+        """Loop-bound names -> their element at induction index _I_; plain once-assigned locals (`lower_bounds = parameters_bounds[0]`) -> their definition."""
+        if depth > 6:
+            return e
+        for nm in {x.id for x in ast.walk(e) if isinstance(x, ast.Name) and isinstance(x.ctx, ast.Load)}:
+            if nm in env:
+                return expand(_substitute(e, nm, env[nm]), {k: v_ for k, v_ in env.items() if k != nm}, depth + 1)
+            if nm in outer_env and nm not in ("parameters_bounds", "parameters_precision"):
+                return expand(_substitute(e, nm, outer_env[nm]), env, depth + 1)
+        return e
+
+    lo_forms = {str(n.rat(parse_expr(f"{b}[0][{IDX}]"))) for b in B}
+    hi_forms = {str(n.rat(parse_expr(f"{b}[1][{IDX}]"))) for b in B}
+    st_forms = {str(n.rat(parse_expr(f"{p_}[{IDX}]"))) for p_ in P}
+    count_forms = {str(n.rat(parse_expr(t))) for t in ("self.dims", "len(parameters_precision)", "len(self._parameters_precision)", "len(parameters_bounds[0])", "len(parameters_bounds[1])",
+                                                       "len(self._parameters_bounds[0])", "len(self._parameters_bounds[1])")}
     col = None
     if comp is not None and len(comp.generators) == 1:
         gen = comp.generators[0]
-        it = gen.iter
-        ok_it = isinstance(it, ast.Call) and dotted(it.func) == "zip" and len(it.args) == 3 and isinstance(gen.target, ast.Tuple) and len(gen.target.elts) == 3 and not gen.ifs \
-            and src(it.args[0]) in [f"{b}[0]" for b in B] and src(it.args[1]) in [f"{b}[1]" for b in B] and src(it.args[2]) in P
-        ctx.check(ok_it, "R3.columns", "SearchSpace.__init__:grid-loop", "one column per parameter: zip(lower bounds, upper bounds, precisions), in order", f"grid comprehension iterates `{src(it)[:90]}`", init, comp)
-        if ok_it:
-            l_, u_, p_ = (src(x) for x in gen.target.elts)
-            lo_forms, hi_forms, st_forms = {l_}, {u_}, {p_}
+        benv, counts = loop_binding(gen.target, gen.iter)
+        ok_it = not gen.ifs and bool(counts) and all(str(n.rat(expand(c_, {}))) in count_forms for c_ in counts)
+        ctx.check(ok_it, "R3.columns", "SearchSpace.__init__:grid-loop", "one column per parameter, in order", f"grid comprehension iterates `{src(gen.iter)[:90]}`" + (" with a filter" if gen.ifs else ""), init, comp)
         par = getattr(comp, "_parent", None)
         ok_store = isinstance(par, (ast.Assign, ast.AnnAssign)) and src(par.targets[0] if isinstance(par, ast.Assign) else par.target) == "self._param_grid"
         ctx.check(ok_store, "R3.columns", "SearchSpace.__init__:append", "the columns, in parameter order, are the grid", "the comprehension result is not stored as the grid", init, comp)
-    elif loop is not None and isinstance(loop.target, ast.Name):
-        i = loop.target.id
-        it_ok = src(loop.iter) in ("range(self.dims)", "range(len(parameters_precision))", "range(len(self._parameters_precision))")
-        ctx.check(it_ok, "R3.columns", "SearchSpace.__init__:grid-loop", "the grid loop visits every parameter index once, in order", f"grid loop is `for {i} in {src(loop.iter)}`", init, loop)
-        lo_forms = {str(n.rat(parse_expr(f"{b}[0][{i}]"))) for b in B}
-        hi_forms = {str(n.rat(parse_expr(f"{b}[1][{i}]"))) for b in B}
-        st_forms = {str(n.rat(parse_expr(f"{p_}[{i}]"))) for p_ in P}
+    elif loop is not None:
+        benv, counts = loop_binding(loop.target, loop.iter)
+        it_ok = bool(counts) and all(str(n.rat(expand(c_, {}))) in count_forms for c_ in counts)
+        ctx.check(it_ok, "R3.columns", "SearchSpace.__init__:grid-loop", "the grid loop visits every parameter index once, in order", f"grid loop is `for {src(loop.target)} in {src(loop.iter)[:80]}`", init, loop)
         col_names = [t.id for s_ in loop.body if isinstance(s_, (ast.Assign, ast.AnnAssign)) for t in ([s_.target] if isinstance(s_, ast.AnnAssign) else s_.targets) if isinstance(t, ast.Name) and any(x is c for x in ast.walk(s_))]
         col = col_names[0] if col_names else None
         # the appended column must be the arange result itself: a later re-binding that filters it by an exact comparison with the upper bound
@@ -304,7 +314,7 @@ def r3_grid(ctx: Context) -> None:
             for rb in rebinds:
                 cmp_ = [x for x in ast.walk(rb) if isinstance(x, ast.Compare) and len(x.ops) == 1 and isinstance(x.ops[0], (ast.Lt, ast.LtE, ast.Gt, ast.GtE))
                         and any(isinstance(y, ast.Name) and y.id == col for y in ast.walk(x))]
-                exact = [x for x in cmp_ if any(str(n.rat(side)) in hi_forms for side in (x.left, x.comparators[0]) if not any(isinstance(y, ast.Name) and y.id == col for y in ast.walk(side)))]
+                exact = [x for x in cmp_ if any(str(n.rat(expand(side, benv))) in hi_forms for side in (x.left, x.comparators[0]) if not any(isinstance(y, ast.Name) and y.id == col for y in ast.walk(side)))]
                 if exact:
                     ctx.fail("R3.columns", "SearchSpace.__init__:column-filtered-by-upper-bound", f"`{src(rb)[:90]}` filters the arange result by an exact comparison with the upper bound: when lower + k*precision "
                              "rounds one ulp above the bound (e.g. [0, 0.3] step 0.1: 0.30000000000000004) the end point is dropped, although the range is a whole number of steps - grid and space_size lose a point", init, rb)
@@ -317,11 +327,12 @@ def r3_grid(ctx: Context) -> None:
         ctx.check(len(grid_init) == 1 and isinstance(grid_init[0], ast.List) and not grid_init[0].elts, "R3.columns", "SearchSpace.__init__:grid-init", "the grid starts empty", "the grid does not start as an empty list", init, init.node)
     else:
         raise AnalysisError(f"{init.loc(c)}: the grid is not built by a loop over the parameter indices nor by a comprehension over zip(bounds, precisions); cannot decide R3")
-    ctx.check(str(n.rat(start)) in lo_forms, "R3.arange", "SearchSpace.__init__:arange-start", "column i starts at the lower bound of parameter i", f"grid start is `{src(start)}`", init, c)
-    ctx.check(str(n.rat(step)) in st_forms, "R3.arange", "SearchSpace.__init__:arange-step", "column i advances by the precision of parameter i", f"grid step is `{src(step)}`", init, c)
+    start_x, stop_x, step_x = expand(start, benv), expand(stop, benv), expand(step, benv)
+    ctx.check(str(n.rat(start_x)) in lo_forms, "R3.arange", "SearchSpace.__init__:arange-start", "column i starts at the lower bound of parameter i", f"grid start is `{src(start)}`", init, c)
+    ctx.check(str(n.rat(step_x)) in st_forms, "R3.arange", "SearchSpace.__init__:arange-step", "column i advances by the precision of parameter i", f"grid step is `{src(step)}`", init, c)
     slack = None
-    for hf in hi_forms:
-        diff = n.rat(stop) - n.rat(parse_expr(hf)) if not hf.startswith("(") else None
+    for hb in B:
+        diff = n.rat(stop_x) - n.rat(parse_expr(f"{hb}[1][{IDX}]"))
         if diff is not None and not any(a_ in hi_forms for a_ in diff.atoms()):
             slack = diff
             break
